@@ -168,7 +168,7 @@ def register(R):
     R.external('fileobj_or_name',
                read=ExtSpec(returns=src_read, raises=('Exception',)),
                tell=ExtSpec(returns=src_tell, raises=('Exception',)),
-               seek=ExtSpec(raises=('Exception',), effect=src_seek_effect),
+               seek=ExtSpec(raises=('Exception', 'OSError'), effect=src_seek_effect),     # OSError listed: compat.seekable distinguishes it
                close=ExtSpec(raises=('Exception',)),
                write=ExtSpec(raises=('Exception',)),
                seekable=ExtSpec(returns=Bool, pure=True), readable=ExtSpec(returns=Bool, pure=True),
